@@ -59,7 +59,9 @@ pub const ENV_POINTS: usize = 100_000;
 /// the harmless `true`, or a state holding more than ENV_POINTS code points.
 pub fn outside_envelope(name: &str, st: &PushState) -> Option<String> {
     let int_at = |i: usize| st.int_stack.get(i).copied();
-    let too_big = |v: Option<i32>| matches!(v, Some(x) if x > ENV_SIZE);
+    // (PV_ENV_SIZE widens the size limit for stages that look at results of a hundred thousand elements)
+    let env_size: i32 = std::env::var("PV_ENV_SIZE").ok().and_then(|s| s.parse().ok()).unwrap_or(ENV_SIZE);
+    let too_big = |v: Option<i32>| matches!(v, Some(x) if x > env_size);
     match name {
         "BOOLVECTOR.ONES" | "BOOLVECTOR.ZEROS" | "INTVECTOR.ONES" | "INTVECTOR.ZEROS" | "FLOATVECTOR.ONES"
         | "FLOATVECTOR.ZEROS" | "BOOLVECTOR.RAND" | "INTVECTOR.RAND" | "FLOATVECTOR.RAND" | "FLOATVECTOR.SINE"
@@ -534,6 +536,17 @@ impl Runner {
                             { crashed = true; break 'acts; }
                         }
                     }
+                    i += 1;
+                }
+                "add_instr" => {
+                    // a user instruction (a no-op) registered in the middle of a case, after the set has been in use
+                    let name = act["name"].as_str().unwrap_or("").to_string();
+                    self.iset.add(name, Instruction::new(|_st: &mut PushState, _c: &InstructionCache| {}));
+                    let mut ev = json!({"id": id, "i": i, "act": act, "post": project(&st)});
+                    if let Some(p) = first.take() {
+                        ev["pre"] = p;
+                    }
+                    writeln!(out, "{}", ev).unwrap();
                     i += 1;
                 }
                 "copy_to_code" => {
